@@ -943,6 +943,15 @@ pub fn run_property(prop: Property, tier: Tier) -> Outcome {
         })
         .collect();
     let all_exhaustive = !reports.is_empty() && reports.iter().all(|r| r.exhaustive);
+    // summary of the coverage-guided (libFuzzer) part, if the driver ran one
+    let fuzz: Value = std::env::var("VERIF_EXTRA_EVIDENCE")
+        .ok()
+        .and_then(|p| std::fs::read_to_string(p).ok())
+        .and_then(|t| serde_json::from_str(t.trim()).ok())
+        .unwrap_or(Value::Null);
+    let fuzz_execs = fuzz.get("execs").and_then(|v| v.as_u64()).unwrap_or(0)
+        + fuzz.get("replayed").and_then(|v| v.as_u64()).unwrap_or(0);
+    let evaluations = evaluations + fuzz_execs;
     let evidence = json!({
         "property_id": prop.id,
         "tier": tier.as_str(),
@@ -958,6 +967,7 @@ pub fn run_property(prop: Property, tier: Tier) -> Outcome {
             "regress_replayed": regress_n,
             "known_findings_excluded": known_hits,
             "generator_health": health,
+            "fuzz": fuzz,
         },
         "assumptions": prop.assumptions,
         "wall_s": (t0.elapsed().as_secs_f64() * 100.0).round() / 100.0,
